@@ -286,6 +286,29 @@ for k, t in R14TXT.items():
     lv, eng, tech, text, note = checks[k]
     checks[k] = (lv, eng, tech, text + t, note)
 
+R15TXT = {
+ "C03": " Fifteenth round: the encrypting methods called on a copy (by assignment) of the frame value - the frame the caller holds is transformed.",
+ "C04": " Fifteenth round: join frames kept by plain assignment while their variable decodes the next frame (all ordered pairs of the alphabet) stay what they were.",
+ "C06": " Fifteenth round: headers (FHDR, MACPayload, MHDR, FCtrl, CFList, PHYPayload) kept by plain assignment while their variable decodes the next input stay what they were.",
+ "C07": " Fifteenth round: a frame decoded with a FOpts bytes whose FOpts are then set to b one-byte commands (a, b in 0..15; edited in place or FCtrl copied into a new header) encodes with FOptsLen b and decodes to those commands.",
+ "C08": " Fifteenth round: after the MIC validations (with a key that is not the frame's) the frame still re-encodes to the input.",
+ "C09": " Fifteenth round: the registry changes between the decoding runs are cases of their own (a registration that never returns after a decode left a lock behind is a hanging case).",
+ "C10": " Fifteenth round: kept copies for every reuse type (decode A, copy by assignment, decode B into the same variable: the copy prints as before); UnmarshalText leaves its source text - also one with line breaks - as it is.",
+ "C12": " Fifteenth round: E3 - one configured band object (US915, EU868 + custom channel, CN470), new in every execution, read by two or three threads at once (RX1 frequency / channel / data-rate, ping-slot frequency): every interleaving, every thread gets the answers it gets alone, no race.",
+ "C13": " Fifteenth round: E3 - one band object (EU868, US915) read by two or three threads at once (data-rate lookups by parameters and by index, max payload size).",
+ "C14": " Fifteenth round: the device list is handed to the planner as a window into a larger buffer and is the same list afterwards.",
+ "C15": " Fifteenth round: E3 - one band object (US915, EU868 + custom channels) read by two or three threads at once (channel lookups by frequency and by frequency + data-rate).",
+ "C16": " Fifteenth round: key records that do not repeat the DevEUI (every other device).",
+ "C17": " Fifteenth round: hex byte strings kept by plain assignment while their variable decodes the next text (8 x 8 lengths, through UnmarshalText and through a JSON document).",
+ "C18": " Fifteenth round: E3 - the multicast key derivations for three groups from three threads at once.",
+ "C20": " Fifteenth round: the first call into the gps package in every (child) process is a GPS -> UTC conversion of three published instants.",
+}
+for k, t in R15TXT.items():
+    lv, eng, tech, text, note = checks[k]
+    if k in ("C12", "C13", "C15", "C18") and E3 not in tech:
+        tech = tech + "; " + E3
+    checks[k] = (lv, eng, tech, text + t, note)
+
 def load_extra():
     p = os.path.join(V, "bin", "manifest_table.json")
     if os.path.exists(p):
